@@ -44,7 +44,8 @@ from ..runner import Check, tier_n
 
 BREAK = os.environ.get("VERIF_C11_BREAK", "")       # sensitivity self-test of the oracles (never set in the gate)
 ONLY = [w for w in os.environ.get("VERIF_C11_ONLY", "").split(",") if w]     # development: run these workloads only
-WATCHDOG = 20.0             # s; a parse takes ~0.1 ms, a gama-local run ~30 ms
+WATCHDOG = 20.0             # s; a gama-local run takes ~30 ms
+PARSE_WATCHDOG = 10.0       # s; a parse takes ~0.1 ms
 CORPUS = os.path.join(runner.ROOT, "corpus")
 XMLNS = "http://www.gnu.org/software/gama/gama-local"
 
@@ -439,26 +440,38 @@ class Drv:
         results, trans, incidents = {}, {}, []
         pending = list(recs)
         guard = 0
-        while pending and guard < 40:
+        env = {"ASAN_OPTIONS": runner.SAN_ENV["ASAN_OPTIONS"] + ":alloc_dealloc_mismatch=1"}
+        while pending and guard < 60:
             guard += 1
             path = self._stream(pending)
-            budget = WATCHDOG + sum(r.cost for r in pending) / 1500.0
-            rr = runner.run([self.exe, "-t", path], timeout=budget, san_extra="alloc_dealloc_mismatch=1")
+            budget = PARSE_WATCHDOG + sum(r.cost for r in pending) / 1500.0
+            rr = run_abrt([self.exe, "-t", path], budget, env=env)
             started = self._parse(rr.out, results, trans)
             os.unlink(path)
             if started is None:
                 if rr.rc != 0 or rr.timeout:
-                    incidents.append((None, rr))
+                    incidents.append((None, rr, None, None))
                 break
             idx = next((k for k, r in enumerate(pending) if r.id == started), None)
             if idx is None:
-                incidents.append((None, rr))
+                incidents.append((None, rr, None, None))
                 break
-            incidents.append((pending[idx], rr))
+            rec = pending[idx]
+            # re-run the culprit alone (reproducibility, precise report); a hang whose stack has been confirmed twice
+            # already is not re-run again
+            hk = "hang:parse:%s:%s" % (rec.kind, hang_frames(rr)) if rr.timeout else None
+            if hk and self.hang_keys.get(hk, 0) >= 2:
+                rr1, res1 = rr, None
+            else:
+                rr1, res1 = self.solo(rec)
+            incidents.append((rec, rr, rr1, res1))
+            if rr1.timeout:
+                k2 = "hang:parse:%s:%s" % (rec.kind, hang_frames(rr1))
+                self.hang_keys[k2] = self.hang_keys.get(k2, 0) + 1
             pending = pending[idx + 1:]
         return results, trans, incidents
 
-    def solo(self, rec, timeout=WATCHDOG):
+    def solo(self, rec, timeout=PARSE_WATCHDOG):
         path = self._stream([rec])
         rr = run_abrt([self.exe, path], timeout, env={"ASAN_OPTIONS": runner.SAN_ENV["ASAN_OPTIONS"] +
                                                        ":alloc_dealloc_mismatch=1"})
@@ -488,25 +501,24 @@ class Drv:
             results.update(res)
             for k, v in trans.items():
                 self.trans[k] = self.trans.get(k, 0) + v
-            for rec, rr in incidents:
+            for rec, rr, rr1, res1 in incidents:
                 if rec is None:
                     raise runner.HarnessError("parsedrv failed outside a document (%s): rc=%s %s" % (
                         label, rr.rc, (rr.err or "")[-400:]))
-                self._incident(rec, rr, label, results)
+                self._incident(rec, rr, rr1, res1, label, results)
         self.ck.count("parsedrv documents [%s]" % label, len(recs))
         return results
 
-    def _incident(self, rec, rr, label, results):
+    def _incident(self, rec, rr, rr1, res1, label, results):
         o = Out()
         results[rec.id] = o
-        rr1, res1 = self.solo(rec)
         wit = mkwit("parse", rec.doc, kind=rec.kind, mode=rec.mode, label=label, meta=rec.meta)
         if rr1.timeout:
             o.kind = "hang"
             key = "hang:parse:%s:%s" % (rec.kind, hang_frames(rr1))
-            self.hang_keys[key] = self.hang_keys.get(key, 0) + 1
-            self.F.add(key, "parsing a %d-byte document did not finish within %.0f s, alone, twice; SIGABRT stack: %s" % (
-                len(rec.doc), WATCHDOG, hang_frames(rr1)), wit)
+            self.ck.count("watchdog overruns while parsing (each re-run alone until its stack was confirmed twice)")
+            self.F.add(key, "parsing a %d-byte document did not finish within %.0f s, in a batch and alone; SIGABRT stack: %s" % (
+                len(rec.doc), PARSE_WATCHDOG, hang_frames(rr1)), wit)
             return
         key, what = san_key(rr1)
         if key:
@@ -598,7 +610,7 @@ class GL:
         self.exe = runner.binpath("san", "gama-local")
         self.n = itertools.count(1)
 
-    def run(self, doc, args, stdin=False, timeout=WATCHDOG, abrt=False, missing_input=False):
+    def run(self, doc, args, stdin=False, timeout=WATCHDOG, missing_input=False):
         d = os.path.join(self.ck.tmp, "gl%d" % next(self.n))
         os.makedirs(d, exist_ok=True)
         inp = os.path.join(d, "in.gkf")
@@ -616,13 +628,7 @@ class GL:
                 argv.append(a)
         cmd = [self.exe] + [("-" if stdin else inp) if a == "@@" else a for a in argv]
         env = {"ASAN_OPTIONS": runner.SAN_ENV["ASAN_OPTIONS"] + ":alloc_dealloc_mismatch=1"}
-        if abrt:
-            rr = run_abrt(cmd, timeout, cwd=d, stdin=doc if stdin else None, env=env)
-        else:
-            rr = runner.run(cmd, stdin=doc if stdin else None, timeout=timeout, cwd=d, env=env, text=False)
-            rr = runner.RunResult(rr.rc, rr.out.decode(errors="replace") if isinstance(rr.out, bytes) else rr.out,
-                                  rr.err.decode(errors="replace") if isinstance(rr.err, bytes) else rr.err,
-                                  rr.timeout, rr.wall)
+        rr = run_abrt(cmd, timeout, cwd=d, stdin=doc if stdin else None, env=env)
         g = xmlout.GamaRun()
         g.rr, g.rc, g.out, g.err, g.cmd, g.dir = rr, rr.rc, rr.out, rr.err, cmd, d
         g.files = {}
@@ -631,6 +637,7 @@ class GL:
                 with open(p, "rb") as f:
                     g.files[k] = f.read()
         g.args = [a for a in args]
+        g.stdin = stdin
         try:
             for fn in os.listdir(d):
                 os.unlink(os.path.join(d, fn))
@@ -701,7 +708,7 @@ def judge_gl(ck, F, GLr, doc, g, label, expect=None, meta=None, minimise_opts=Tr
     args = list(g.args)
     wit = lambda **kw: mkwit("pipeline", doc, args=args, label=label, meta=meta, rc=g.rc, **kw)
     if cls == "timeout":
-        g2 = GLr.run(doc, args, stdin="-" in g.cmd[1:2], abrt=True)
+        g2 = GLr.run(doc, args, stdin=getattr(g, "stdin", False))
         if g2.rr.timeout:
             F.add("hang:gama-local:%s" % hang_frames(g2.rr),
                   "gama-local did not finish within %.0f s (twice) on a %d-byte input; SIGABRT stack: %s" % (
@@ -1308,7 +1315,7 @@ def mutations(seed, name, doc, n_tok, n_flip, n_elem):
         elif k == 3:
             L.insert(a, str(rng.choice(["<zzz/>", "<dh from='A' to='B' val='1'/>", "<point id='Q' x='abc' y='1'/>",
                                         "<cov-mat dim='1' band='0'>1</cov-mat>", "<obs>", "</obs>", "<network>",
-                                        "<direction to='X' val='1e30'/>", "<vec/>", "<coordinates>"])).encode())
+                                        "<direction to='X' val='1e5'/>", "<vec/>", "<coordinates>"])).encode())
             yield ("insert-element", tag, ""), b"\n".join(L)
         elif k == 4:
             L.insert(a, str(rng.choice(["stray text", "12.5", "&amp;", "<![CDATA[x]]>", "<?pi x?>", "<!DOCTYPE a>"])).encode())
@@ -1358,6 +1365,33 @@ class Ctx:
 
     def n(self, quick, thorough):
         return tier_n(self.tier, quick, thorough)
+
+
+def is_huge(lit):
+    return bool(RX_FLOAT.fullmatch(lit)) and abs(float(lit)) >= 1e13
+
+
+def run_with_probes(X, recs, label, slot_of, lit_of):
+    """Runs documents through parsedrv.  Documents that put a huge (>= 1e13, lexically valid) number into a slot are
+    run after one probe per slot; when the probe of a slot hangs (violation reported), the remaining huge values of that
+    slot are skipped and counted, so that one defect does not cost a watchdog period per document."""
+    huge = [r for r in recs if lit_of(r) is not None and is_huge(lit_of(r))]
+    probes, seen = [], set(X.slot_hang)
+    for r in huge:
+        if slot_of(r) not in seen:
+            seen.add(slot_of(r))
+            probes.append(r)
+    res = X.drv.run(probes, label)
+    for r in probes:
+        if res[r.id].kind == "hang":
+            X.slot_hang.add(slot_of(r))
+    pid = set(id(r) for r in probes)
+    skip = set(id(r) for r in huge if id(r) not in pid and slot_of(r) in X.slot_hang)
+    if skip:
+        X.ck.count("documents skipped: huge value on a slot whose probe hung (violation reported) [%s]" % label, len(skip))
+    rest = [r for r in recs if id(r) not in pid and id(r) not in skip]
+    res.update(X.drv.run(rest, label))
+    return res, [r for r in recs if id(r) not in skip]
 
 
 def repo_inputs(maxsize=5000):
@@ -1602,7 +1636,8 @@ def w3_mutations(X):
                 recs.append(Rec("t%d_%d" % (bi, cut), "gkf", "lines", doc[:cut], dict(base=name, label=("truncate", "", ""))))
         for k, (lab, m) in enumerate(mutations(X.seed, name, doc, X.n(260, 4000), X.n(200, 3000), X.n(60, 800))):
             recs.append(Rec("m%d_%d" % (bi, k), "gkf", "lines", m, dict(base=name, label=lab)))
-    res = X.drv.run(recs, "w3 mutations")
+    res, recs = run_with_probes(X, recs, "w3 mutations", lambda r: r.meta["label"][1],
+                                lambda r: r.meta["label"][2] if r.meta["label"][0] == "number" else None)
     acc = []
     for r in recs:
         o = res[r.id]
@@ -1610,8 +1645,6 @@ def w3_mutations(X):
         lab = r.meta["label"]
         ck.case(("w3", lab[0], c))
         ck.count("w3 parser: " + c)
-        if o.kind == "hang" and lab[0] == "number":
-            X.slot_hang.add(lab[1])
         if c == "accepted" and lab[0] != "truncate":
             L = Lint(r.doc)
             if not L.wf:
@@ -1722,21 +1755,9 @@ def w4_literals(X):
             if any(c in lit for c in "<&\""):
                 continue
             recs.append(Rec("l%d" % len(recs), "gkf", "lines", lit_doc(s, lit), dict(slot=s, lit=lit)))
-    # hostile magnitudes first, in their own batch, so that the exhaustive part can avoid slots already known to hang
-    big = [r for r in recs if RX_FLOAT.fullmatch(r.meta["lit"]) and abs(float(r.meta["lit"])) >= 1e12]
-    rest = [r for r in recs if r not in set(big)]
-    res = X.drv.run(big, "w4 literals")
-    for r in big:
-        if res[r.id].kind == "hang":
-            X.slot_hang.add(r.meta["slot"])
-    skipped = [r for r in rest if r.meta["slot"] in X.slot_hang and typ_of[r.meta["slot"]] == "angle" and
-               re.search(r"[eE]", r.meta["lit"]) and lex_ok("angle", r.meta["lit"])]
-    if skipped:
-        ck.count("w4 literals skipped on slots with a reported hang", len(skipped))
-        rest = [r for r in rest if r not in set(skipped)]
-    res.update(X.drv.run(rest, "w4 literals"))
+    res, recs = run_with_probes(X, recs, "w4 literals", lambda r: r.meta["slot"], lambda r: r.meta["lit"])
     acc = []
-    for r in big + rest:
+    for r in recs:
         o = res[r.id]
         slot, lit, typ = r.meta["slot"], r.meta["lit"], typ_of[r.meta["slot"]]
         c = judge_parse(ck, F, r, o)
@@ -2308,7 +2329,7 @@ def run(tier, seed):
         "mandatory attribute, element not allowed by the XSD in that parent, element after cov-mat, cov-mat dim != number of "
         "observations, stray text; occurrence counts, enumerations and unknown attributes are not judged",
         "libFuzzer artifacts count only when the san binaries reproduce a refuting event on the same input",
-        "termination is bounded progress: %.0f s watchdog, reproduced alone" % WATCHDOG]
+        "termination is bounded progress: watchdog %.0f s per parse batch / %.0f s per gama-local run, reproduced alone" % (PARSE_WATCHDOG, WATCHDOG)]
     if not ONLY:
         ck.minimum = dict(evaluations=tier_n(tier, 150000, 1000000), distinct=120)
         ck.minimum["parsedrv documents [w2 sequences]"] = 190000
